@@ -142,7 +142,12 @@ Record respmsg := mkResp
 
 Inductive origin_outcome := Resp (r : respmsg).
 
-Record exchange := mkEx { rq : reqmsg; rs : origin_outcome }.
+(* how much of the request body the origin reads before it answers: all of it,
+   or only the first k bytes (k = 0: it answers on the head alone); what it has
+   not read it reads, or never reads, afterwards *)
+Inductive readmode := ReadAll | ReadSome (k : N).
+
+Record exchange := mkEx { rq : reqmsg; rs : origin_outcome; rd : readmode }.
 
 Definition resp_of (e : exchange) : respmsg := match rs e with Resp r => r end.
 
@@ -386,8 +391,19 @@ Fixpoint forall2b {A B} (f : A -> B -> bool) (a : list A) (b : list B) : bool :=
   | _, _ => false
   end.
 
+(* an origin that answered before it had read the whole body did not "receive"
+   a body to compare: everything but the body is still demanded *)
+Definition with_body (w : wire_req) (b : bodytok) : wire_req :=
+  mkWReq (w_meth w) (w_uri w) (w_hdrs w) b.
+
+Definition req_preserved_e (e : exchange) (w : wire_req) : bool :=
+  match rd e with
+  | ReadAll => req_preserved_b (rq e) w
+  | ReadSome _ => req_preserved_b (rq e) (with_body w (rbody (rq e)))
+  end.
+
 Definition c01_req_ok (es : list exchange) (o : conn_obs) : bool :=
-  forall2b req_preserved_b (map rq (served es)) (origin_saw o).
+  forall2b req_preserved_e (served es) (origin_saw o).
 
 Definition c01_res_ok (es : list exchange) (o : conn_obs) : bool :=
   forall2b res_preserved_b (map resp_of (served es)) (client_got o).
@@ -439,7 +455,8 @@ Fixpoint forall3b {A B C} (f : A -> B -> C -> bool) (a : list A) (b : list B) (c
 
 (* model prediction vs observation, exchange by exchange *)
 Definition obs_agree (es : list exchange) (m o : conn_obs) : bool :=
-  (forall3b (fun e a b => wreq_equiv (nominated (rhdrs (rq e))) a b)
+  (forall3b (fun e a b => wreq_equiv (nominated (rhdrs (rq e))) a
+                            (match rd e with ReadAll => b | ReadSome _ => with_body b (w_body a) end))
             (firstn (List.length (origin_saw m)) es) (origin_saw m) (origin_saw o)
    && forall3b (fun e a b => wres_equiv (nominated (shdrs (resp_of e))) a b)
             (firstn (List.length (client_got m)) es) (client_got m) (client_got o)
